@@ -404,6 +404,8 @@ func sameUnderlying(a, b ssa.Value) bool {
 				v = x.X
 			case *ssa.ChangeInterface:
 				v = x.X
+			case *ssa.ChangeType:
+				v = x.X
 			default:
 				return v
 			}
